@@ -16,7 +16,9 @@ theorem regLoad_eq (ty : Ty) (base : Arg) (offset : BitVec 16) : regLoadSrc ty b
 theorem regStore_eq (ty : Ty) (base : Arg) (offset : BitVec 16) (v : Arg) : regStoreSrc ty base offset v = regStore ty base offset v := rfl
 theorem regAtomicAdd_eq (ty : Ty) (base : Arg) (offset : BitVec 16) (v : Arg) : regAtomicAddSrc ty base offset v = regAtomicAdd ty base offset v := rfl
 
-/-! one lemma per straight-line opcode: with the opcode a literal both `match`es reduce and the arms agree by unfolding -/
+/-! one lemma per straight-line opcode: with the opcode a literal both `match`es reduce.  For the arms the source shares between several
+    opcodes (`ldabs`/`ldind`, `ldx`, `st`/`stx`, `le`/`be`: an inner `match` on the opcode where the model computes `sizeTy`) the inner match
+    is evaluated by `simp` after both sides have been brought to the shared arm. -/
 
 section
 variable {helpers : Nat → Bool} {p : Bytes} {pc : Nat} {opc dstb srcb : BitVec 8} {off : BitVec 16} {imm : BitVec 32}
@@ -45,48 +47,120 @@ theorem sa_28 (h : opc.toNat = 28) :
 theorem sa_31 (h : opc.toNat = 31) :
     straightArmSrc ⟨opc, dstb, srcb, off, imm⟩ = some (armB helpers p pc ⟨opc, dstb, srcb, off, imm⟩) := by
   obtain rfl : opc = 31 := BitVec.eq_of_toNat_eq h; rfl
+theorem sa_32 (h : opc.toNat = 32) :
+    straightArmSrc ⟨opc, dstb, srcb, off, imm⟩ = some (armB helpers p pc ⟨opc, dstb, srcb, off, imm⟩) := by
+  obtain rfl : opc = 32 := BitVec.eq_of_toNat_eq h
+  have e : armB helpers p pc ⟨32, dstb, srcb, off, imm⟩ = ldAbsInd ⟨32, dstb, srcb, off, imm⟩ := by rfl
+  rw [e]
+  conv => lhs; whnf
+  refine congrArg some ?_
+  simp only [BitVec.reduceToNat, pure_bind, ldAbsInd, regLoad_eq, show sizeTy 32 = Ty.i32 from rfl, ↓reduceIte, Nat.reduceAnd,
+    bne_iff_ne, ne_eq, not_true_eq_false, not_false_eq_true, reduceCtorEq]
 theorem sa_36 (h : opc.toNat = 36) :
     straightArmSrc ⟨opc, dstb, srcb, off, imm⟩ = some (armB helpers p pc ⟨opc, dstb, srcb, off, imm⟩) := by
   obtain rfl : opc = 36 := BitVec.eq_of_toNat_eq h; rfl
 theorem sa_39 (h : opc.toNat = 39) :
     straightArmSrc ⟨opc, dstb, srcb, off, imm⟩ = some (armB helpers p pc ⟨opc, dstb, srcb, off, imm⟩) := by
   obtain rfl : opc = 39 := BitVec.eq_of_toNat_eq h; rfl
+theorem sa_40 (h : opc.toNat = 40) :
+    straightArmSrc ⟨opc, dstb, srcb, off, imm⟩ = some (armB helpers p pc ⟨opc, dstb, srcb, off, imm⟩) := by
+  obtain rfl : opc = 40 := BitVec.eq_of_toNat_eq h
+  have e : armB helpers p pc ⟨40, dstb, srcb, off, imm⟩ = ldAbsInd ⟨40, dstb, srcb, off, imm⟩ := by rfl
+  rw [e]
+  conv => lhs; whnf
+  refine congrArg some ?_
+  simp only [BitVec.reduceToNat, pure_bind, ldAbsInd, regLoad_eq, show sizeTy 40 = Ty.i16 from rfl, ↓reduceIte, Nat.reduceAnd,
+    bne_iff_ne, ne_eq, not_true_eq_false, not_false_eq_true, reduceCtorEq]
 theorem sa_44 (h : opc.toNat = 44) :
     straightArmSrc ⟨opc, dstb, srcb, off, imm⟩ = some (armB helpers p pc ⟨opc, dstb, srcb, off, imm⟩) := by
   obtain rfl : opc = 44 := BitVec.eq_of_toNat_eq h; rfl
 theorem sa_47 (h : opc.toNat = 47) :
     straightArmSrc ⟨opc, dstb, srcb, off, imm⟩ = some (armB helpers p pc ⟨opc, dstb, srcb, off, imm⟩) := by
   obtain rfl : opc = 47 := BitVec.eq_of_toNat_eq h; rfl
+theorem sa_48 (h : opc.toNat = 48) :
+    straightArmSrc ⟨opc, dstb, srcb, off, imm⟩ = some (armB helpers p pc ⟨opc, dstb, srcb, off, imm⟩) := by
+  obtain rfl : opc = 48 := BitVec.eq_of_toNat_eq h
+  have e : armB helpers p pc ⟨48, dstb, srcb, off, imm⟩ = ldAbsInd ⟨48, dstb, srcb, off, imm⟩ := by rfl
+  rw [e]
+  conv => lhs; whnf
+  refine congrArg some ?_
+  simp only [BitVec.reduceToNat, pure_bind, ldAbsInd, regLoad_eq, show sizeTy 48 = Ty.i8 from rfl, ↓reduceIte, Nat.reduceAnd,
+    bne_iff_ne, ne_eq, not_true_eq_false, not_false_eq_true, reduceCtorEq]
 theorem sa_52 (h : opc.toNat = 52) :
     straightArmSrc ⟨opc, dstb, srcb, off, imm⟩ = some (armB helpers p pc ⟨opc, dstb, srcb, off, imm⟩) := by
   obtain rfl : opc = 52 := BitVec.eq_of_toNat_eq h; rfl
 theorem sa_55 (h : opc.toNat = 55) :
     straightArmSrc ⟨opc, dstb, srcb, off, imm⟩ = some (armB helpers p pc ⟨opc, dstb, srcb, off, imm⟩) := by
   obtain rfl : opc = 55 := BitVec.eq_of_toNat_eq h; rfl
+theorem sa_56 (h : opc.toNat = 56) :
+    straightArmSrc ⟨opc, dstb, srcb, off, imm⟩ = some (armB helpers p pc ⟨opc, dstb, srcb, off, imm⟩) := by
+  obtain rfl : opc = 56 := BitVec.eq_of_toNat_eq h
+  have e : armB helpers p pc ⟨56, dstb, srcb, off, imm⟩ = ldAbsInd ⟨56, dstb, srcb, off, imm⟩ := by rfl
+  rw [e]
+  conv => lhs; whnf
+  refine congrArg some ?_
+  simp only [BitVec.reduceToNat, pure_bind, ldAbsInd, regLoad_eq, show sizeTy 56 = Ty.i64 from rfl, ↓reduceIte, Nat.reduceAnd,
+    bne_iff_ne, ne_eq, not_true_eq_false]
 theorem sa_60 (h : opc.toNat = 60) :
     straightArmSrc ⟨opc, dstb, srcb, off, imm⟩ = some (armB helpers p pc ⟨opc, dstb, srcb, off, imm⟩) := by
   obtain rfl : opc = 60 := BitVec.eq_of_toNat_eq h; rfl
 theorem sa_63 (h : opc.toNat = 63) :
     straightArmSrc ⟨opc, dstb, srcb, off, imm⟩ = some (armB helpers p pc ⟨opc, dstb, srcb, off, imm⟩) := by
   obtain rfl : opc = 63 := BitVec.eq_of_toNat_eq h; rfl
+theorem sa_64 (h : opc.toNat = 64) :
+    straightArmSrc ⟨opc, dstb, srcb, off, imm⟩ = some (armB helpers p pc ⟨opc, dstb, srcb, off, imm⟩) := by
+  obtain rfl : opc = 64 := BitVec.eq_of_toNat_eq h
+  have e : armB helpers p pc ⟨64, dstb, srcb, off, imm⟩ = ldAbsInd ⟨64, dstb, srcb, off, imm⟩ := by rfl
+  rw [e]
+  conv => lhs; whnf
+  refine congrArg some ?_
+  simp only [BitVec.reduceToNat, pure_bind, ldAbsInd, insnSrc_eq, regLoad_eq, show sizeTy 64 = Ty.i32 from rfl, ↓reduceIte,
+    Nat.reduceAnd, bne_iff_ne, ne_eq, not_false_eq_true, reduceCtorEq]
 theorem sa_68 (h : opc.toNat = 68) :
     straightArmSrc ⟨opc, dstb, srcb, off, imm⟩ = some (armB helpers p pc ⟨opc, dstb, srcb, off, imm⟩) := by
   obtain rfl : opc = 68 := BitVec.eq_of_toNat_eq h; rfl
 theorem sa_71 (h : opc.toNat = 71) :
     straightArmSrc ⟨opc, dstb, srcb, off, imm⟩ = some (armB helpers p pc ⟨opc, dstb, srcb, off, imm⟩) := by
   obtain rfl : opc = 71 := BitVec.eq_of_toNat_eq h; rfl
+theorem sa_72 (h : opc.toNat = 72) :
+    straightArmSrc ⟨opc, dstb, srcb, off, imm⟩ = some (armB helpers p pc ⟨opc, dstb, srcb, off, imm⟩) := by
+  obtain rfl : opc = 72 := BitVec.eq_of_toNat_eq h
+  have e : armB helpers p pc ⟨72, dstb, srcb, off, imm⟩ = ldAbsInd ⟨72, dstb, srcb, off, imm⟩ := by rfl
+  rw [e]
+  conv => lhs; whnf
+  refine congrArg some ?_
+  simp only [BitVec.reduceToNat, pure_bind, ldAbsInd, insnSrc_eq, regLoad_eq, show sizeTy 72 = Ty.i16 from rfl, ↓reduceIte,
+    Nat.reduceAnd, bne_iff_ne, ne_eq, not_false_eq_true, reduceCtorEq]
 theorem sa_76 (h : opc.toNat = 76) :
     straightArmSrc ⟨opc, dstb, srcb, off, imm⟩ = some (armB helpers p pc ⟨opc, dstb, srcb, off, imm⟩) := by
   obtain rfl : opc = 76 := BitVec.eq_of_toNat_eq h; rfl
 theorem sa_79 (h : opc.toNat = 79) :
     straightArmSrc ⟨opc, dstb, srcb, off, imm⟩ = some (armB helpers p pc ⟨opc, dstb, srcb, off, imm⟩) := by
   obtain rfl : opc = 79 := BitVec.eq_of_toNat_eq h; rfl
+theorem sa_80 (h : opc.toNat = 80) :
+    straightArmSrc ⟨opc, dstb, srcb, off, imm⟩ = some (armB helpers p pc ⟨opc, dstb, srcb, off, imm⟩) := by
+  obtain rfl : opc = 80 := BitVec.eq_of_toNat_eq h
+  have e : armB helpers p pc ⟨80, dstb, srcb, off, imm⟩ = ldAbsInd ⟨80, dstb, srcb, off, imm⟩ := by rfl
+  rw [e]
+  conv => lhs; whnf
+  refine congrArg some ?_
+  simp only [BitVec.reduceToNat, pure_bind, ldAbsInd, insnSrc_eq, regLoad_eq, show sizeTy 80 = Ty.i8 from rfl, ↓reduceIte,
+    Nat.reduceAnd, bne_iff_ne, ne_eq, not_false_eq_true, reduceCtorEq]
 theorem sa_84 (h : opc.toNat = 84) :
     straightArmSrc ⟨opc, dstb, srcb, off, imm⟩ = some (armB helpers p pc ⟨opc, dstb, srcb, off, imm⟩) := by
   obtain rfl : opc = 84 := BitVec.eq_of_toNat_eq h; rfl
 theorem sa_87 (h : opc.toNat = 87) :
     straightArmSrc ⟨opc, dstb, srcb, off, imm⟩ = some (armB helpers p pc ⟨opc, dstb, srcb, off, imm⟩) := by
   obtain rfl : opc = 87 := BitVec.eq_of_toNat_eq h; rfl
+theorem sa_88 (h : opc.toNat = 88) :
+    straightArmSrc ⟨opc, dstb, srcb, off, imm⟩ = some (armB helpers p pc ⟨opc, dstb, srcb, off, imm⟩) := by
+  obtain rfl : opc = 88 := BitVec.eq_of_toNat_eq h
+  have e : armB helpers p pc ⟨88, dstb, srcb, off, imm⟩ = ldAbsInd ⟨88, dstb, srcb, off, imm⟩ := by rfl
+  rw [e]
+  conv => lhs; whnf
+  refine congrArg some ?_
+  simp only [BitVec.reduceToNat, pure_bind, ldAbsInd, insnSrc_eq, regLoad_eq, show sizeTy 88 = Ty.i64 from rfl, ↓reduceIte,
+    Nat.reduceAnd, bne_iff_ne, ne_eq, not_true_eq_false, not_false_eq_true, reduceCtorEq]
 theorem sa_92 (h : opc.toNat = 92) :
     straightArmSrc ⟨opc, dstb, srcb, off, imm⟩ = some (armB helpers p pc ⟨opc, dstb, srcb, off, imm⟩) := by
   obtain rfl : opc = 92 := BitVec.eq_of_toNat_eq h; rfl
@@ -95,13 +169,31 @@ theorem sa_95 (h : opc.toNat = 95) :
   obtain rfl : opc = 95 := BitVec.eq_of_toNat_eq h; rfl
 theorem sa_97 (h : opc.toNat = 97) :
     straightArmSrc ⟨opc, dstb, srcb, off, imm⟩ = some (armB helpers p pc ⟨opc, dstb, srcb, off, imm⟩) := by
-  obtain rfl : opc = 97 := BitVec.eq_of_toNat_eq h; rfl
+  obtain rfl : opc = 97 := BitVec.eq_of_toNat_eq h
+  have e : armB helpers p pc ⟨97, dstb, srcb, off, imm⟩ = ldxReg ⟨97, dstb, srcb, off, imm⟩ := by rfl
+  rw [e]
+  conv => lhs; whnf
+  refine congrArg some ?_
+  simp only [BitVec.reduceToNat, pure_bind, ldxReg, insnSrc_eq, regLoad_eq, setDst_eq, show sizeTy 97 = Ty.i32 from rfl,
+    ↓reduceIte, ne_eq, not_false_eq_true, reduceCtorEq]
 theorem sa_98 (h : opc.toNat = 98) :
     straightArmSrc ⟨opc, dstb, srcb, off, imm⟩ = some (armB helpers p pc ⟨opc, dstb, srcb, off, imm⟩) := by
-  obtain rfl : opc = 98 := BitVec.eq_of_toNat_eq h; rfl
+  obtain rfl : opc = 98 := BitVec.eq_of_toNat_eq h
+  have e : armB helpers p pc ⟨98, dstb, srcb, off, imm⟩ = stImmReg true ⟨98, dstb, srcb, off, imm⟩ := by rfl
+  rw [e]
+  conv => lhs; whnf
+  refine congrArg some ?_
+  simp only [BitVec.reduceToNat, pure_bind, stImmReg, insnImm64_eq, insnDst_eq, insnSrc_eq, regStore_eq,
+    show sizeTy 98 = Ty.i32 from rfl, ↓reduceIte, ne_eq, not_false_eq_true, reduceCtorEq]
 theorem sa_99 (h : opc.toNat = 99) :
     straightArmSrc ⟨opc, dstb, srcb, off, imm⟩ = some (armB helpers p pc ⟨opc, dstb, srcb, off, imm⟩) := by
-  obtain rfl : opc = 99 := BitVec.eq_of_toNat_eq h; rfl
+  obtain rfl : opc = 99 := BitVec.eq_of_toNat_eq h
+  have e : armB helpers p pc ⟨99, dstb, srcb, off, imm⟩ = stImmReg false ⟨99, dstb, srcb, off, imm⟩ := by rfl
+  rw [e]
+  conv => lhs; whnf
+  refine congrArg some ?_
+  simp only [BitVec.reduceToNat, pure_bind, stImmReg, insnImm64_eq, insnDst_eq, insnSrc_eq, regStore_eq,
+    show sizeTy 99 = Ty.i32 from rfl, ↓reduceIte, Bool.false_eq_true, ne_eq, not_false_eq_true, reduceCtorEq]
 theorem sa_100 (h : opc.toNat = 100) :
     straightArmSrc ⟨opc, dstb, srcb, off, imm⟩ = some (armB helpers p pc ⟨opc, dstb, srcb, off, imm⟩) := by
   obtain rfl : opc = 100 := BitVec.eq_of_toNat_eq h; rfl
@@ -110,13 +202,31 @@ theorem sa_103 (h : opc.toNat = 103) :
   obtain rfl : opc = 103 := BitVec.eq_of_toNat_eq h; rfl
 theorem sa_105 (h : opc.toNat = 105) :
     straightArmSrc ⟨opc, dstb, srcb, off, imm⟩ = some (armB helpers p pc ⟨opc, dstb, srcb, off, imm⟩) := by
-  obtain rfl : opc = 105 := BitVec.eq_of_toNat_eq h; rfl
+  obtain rfl : opc = 105 := BitVec.eq_of_toNat_eq h
+  have e : armB helpers p pc ⟨105, dstb, srcb, off, imm⟩ = ldxReg ⟨105, dstb, srcb, off, imm⟩ := by rfl
+  rw [e]
+  conv => lhs; whnf
+  refine congrArg some ?_
+  simp only [BitVec.reduceToNat, pure_bind, ldxReg, insnSrc_eq, regLoad_eq, setDst_eq, show sizeTy 105 = Ty.i16 from rfl,
+    ↓reduceIte, ne_eq, not_false_eq_true, reduceCtorEq]
 theorem sa_106 (h : opc.toNat = 106) :
     straightArmSrc ⟨opc, dstb, srcb, off, imm⟩ = some (armB helpers p pc ⟨opc, dstb, srcb, off, imm⟩) := by
-  obtain rfl : opc = 106 := BitVec.eq_of_toNat_eq h; rfl
+  obtain rfl : opc = 106 := BitVec.eq_of_toNat_eq h
+  have e : armB helpers p pc ⟨106, dstb, srcb, off, imm⟩ = stImmReg true ⟨106, dstb, srcb, off, imm⟩ := by rfl
+  rw [e]
+  conv => lhs; whnf
+  refine congrArg some ?_
+  simp only [BitVec.reduceToNat, pure_bind, stImmReg, insnImm64_eq, insnDst_eq, insnSrc_eq, regStore_eq,
+    show sizeTy 106 = Ty.i16 from rfl, ↓reduceIte, ne_eq, not_false_eq_true, reduceCtorEq]
 theorem sa_107 (h : opc.toNat = 107) :
     straightArmSrc ⟨opc, dstb, srcb, off, imm⟩ = some (armB helpers p pc ⟨opc, dstb, srcb, off, imm⟩) := by
-  obtain rfl : opc = 107 := BitVec.eq_of_toNat_eq h; rfl
+  obtain rfl : opc = 107 := BitVec.eq_of_toNat_eq h
+  have e : armB helpers p pc ⟨107, dstb, srcb, off, imm⟩ = stImmReg false ⟨107, dstb, srcb, off, imm⟩ := by rfl
+  rw [e]
+  conv => lhs; whnf
+  refine congrArg some ?_
+  simp only [BitVec.reduceToNat, pure_bind, stImmReg, insnImm64_eq, insnDst_eq, insnSrc_eq, regStore_eq,
+    show sizeTy 107 = Ty.i16 from rfl, ↓reduceIte, Bool.false_eq_true, ne_eq, not_false_eq_true, reduceCtorEq]
 theorem sa_108 (h : opc.toNat = 108) :
     straightArmSrc ⟨opc, dstb, srcb, off, imm⟩ = some (armB helpers p pc ⟨opc, dstb, srcb, off, imm⟩) := by
   obtain rfl : opc = 108 := BitVec.eq_of_toNat_eq h; rfl
@@ -125,13 +235,31 @@ theorem sa_111 (h : opc.toNat = 111) :
   obtain rfl : opc = 111 := BitVec.eq_of_toNat_eq h; rfl
 theorem sa_113 (h : opc.toNat = 113) :
     straightArmSrc ⟨opc, dstb, srcb, off, imm⟩ = some (armB helpers p pc ⟨opc, dstb, srcb, off, imm⟩) := by
-  obtain rfl : opc = 113 := BitVec.eq_of_toNat_eq h; rfl
+  obtain rfl : opc = 113 := BitVec.eq_of_toNat_eq h
+  have e : armB helpers p pc ⟨113, dstb, srcb, off, imm⟩ = ldxReg ⟨113, dstb, srcb, off, imm⟩ := by rfl
+  rw [e]
+  conv => lhs; whnf
+  refine congrArg some ?_
+  simp only [BitVec.reduceToNat, pure_bind, ldxReg, insnSrc_eq, regLoad_eq, setDst_eq, show sizeTy 113 = Ty.i8 from rfl,
+    ↓reduceIte, ne_eq, not_false_eq_true, reduceCtorEq]
 theorem sa_114 (h : opc.toNat = 114) :
     straightArmSrc ⟨opc, dstb, srcb, off, imm⟩ = some (armB helpers p pc ⟨opc, dstb, srcb, off, imm⟩) := by
-  obtain rfl : opc = 114 := BitVec.eq_of_toNat_eq h; rfl
+  obtain rfl : opc = 114 := BitVec.eq_of_toNat_eq h
+  have e : armB helpers p pc ⟨114, dstb, srcb, off, imm⟩ = stImmReg true ⟨114, dstb, srcb, off, imm⟩ := by rfl
+  rw [e]
+  conv => lhs; whnf
+  refine congrArg some ?_
+  simp only [BitVec.reduceToNat, pure_bind, stImmReg, insnImm64_eq, insnDst_eq, insnSrc_eq, regStore_eq,
+    show sizeTy 114 = Ty.i8 from rfl, ↓reduceIte, ne_eq, not_false_eq_true, reduceCtorEq]
 theorem sa_115 (h : opc.toNat = 115) :
     straightArmSrc ⟨opc, dstb, srcb, off, imm⟩ = some (armB helpers p pc ⟨opc, dstb, srcb, off, imm⟩) := by
-  obtain rfl : opc = 115 := BitVec.eq_of_toNat_eq h; rfl
+  obtain rfl : opc = 115 := BitVec.eq_of_toNat_eq h
+  have e : armB helpers p pc ⟨115, dstb, srcb, off, imm⟩ = stImmReg false ⟨115, dstb, srcb, off, imm⟩ := by rfl
+  rw [e]
+  conv => lhs; whnf
+  refine congrArg some ?_
+  simp only [BitVec.reduceToNat, pure_bind, stImmReg, insnImm64_eq, insnDst_eq, insnSrc_eq, regStore_eq,
+    show sizeTy 115 = Ty.i8 from rfl, ↓reduceIte, Bool.false_eq_true, ne_eq, not_false_eq_true, reduceCtorEq]
 theorem sa_116 (h : opc.toNat = 116) :
     straightArmSrc ⟨opc, dstb, srcb, off, imm⟩ = some (armB helpers p pc ⟨opc, dstb, srcb, off, imm⟩) := by
   obtain rfl : opc = 116 := BitVec.eq_of_toNat_eq h; rfl
@@ -140,13 +268,31 @@ theorem sa_119 (h : opc.toNat = 119) :
   obtain rfl : opc = 119 := BitVec.eq_of_toNat_eq h; rfl
 theorem sa_121 (h : opc.toNat = 121) :
     straightArmSrc ⟨opc, dstb, srcb, off, imm⟩ = some (armB helpers p pc ⟨opc, dstb, srcb, off, imm⟩) := by
-  obtain rfl : opc = 121 := BitVec.eq_of_toNat_eq h; rfl
+  obtain rfl : opc = 121 := BitVec.eq_of_toNat_eq h
+  have e : armB helpers p pc ⟨121, dstb, srcb, off, imm⟩ = ldxReg ⟨121, dstb, srcb, off, imm⟩ := by rfl
+  rw [e]
+  conv => lhs; whnf
+  refine congrArg some ?_
+  simp only [BitVec.reduceToNat, pure_bind, ldxReg, insnSrc_eq, regLoad_eq, setDst_eq, show sizeTy 121 = Ty.i64 from rfl,
+    ↓reduceIte, ne_eq, not_true_eq_false]
 theorem sa_122 (h : opc.toNat = 122) :
     straightArmSrc ⟨opc, dstb, srcb, off, imm⟩ = some (armB helpers p pc ⟨opc, dstb, srcb, off, imm⟩) := by
-  obtain rfl : opc = 122 := BitVec.eq_of_toNat_eq h; rfl
+  obtain rfl : opc = 122 := BitVec.eq_of_toNat_eq h
+  have e : armB helpers p pc ⟨122, dstb, srcb, off, imm⟩ = stImmReg true ⟨122, dstb, srcb, off, imm⟩ := by rfl
+  rw [e]
+  conv => lhs; whnf
+  refine congrArg some ?_
+  simp only [BitVec.reduceToNat, pure_bind, stImmReg, insnImm64_eq, insnDst_eq, insnSrc_eq, regStore_eq,
+    show sizeTy 122 = Ty.i64 from rfl, ↓reduceIte, ne_eq, not_true_eq_false]
 theorem sa_123 (h : opc.toNat = 123) :
     straightArmSrc ⟨opc, dstb, srcb, off, imm⟩ = some (armB helpers p pc ⟨opc, dstb, srcb, off, imm⟩) := by
-  obtain rfl : opc = 123 := BitVec.eq_of_toNat_eq h; rfl
+  obtain rfl : opc = 123 := BitVec.eq_of_toNat_eq h
+  have e : armB helpers p pc ⟨123, dstb, srcb, off, imm⟩ = stImmReg false ⟨123, dstb, srcb, off, imm⟩ := by rfl
+  rw [e]
+  conv => lhs; whnf
+  refine congrArg some ?_
+  simp only [BitVec.reduceToNat, pure_bind, stImmReg, insnImm64_eq, insnDst_eq, insnSrc_eq, regStore_eq,
+    show sizeTy 123 = Ty.i64 from rfl, ↓reduceIte, Bool.false_eq_true, ne_eq, not_true_eq_false]
 theorem sa_124 (h : opc.toNat = 124) :
     straightArmSrc ⟨opc, dstb, srcb, off, imm⟩ = some (armB helpers p pc ⟨opc, dstb, srcb, off, imm⟩) := by
   obtain rfl : opc = 124 := BitVec.eq_of_toNat_eq h; rfl
@@ -212,13 +358,49 @@ theorem sa_207 (h : opc.toNat = 207) :
   obtain rfl : opc = 207 := BitVec.eq_of_toNat_eq h; rfl
 theorem sa_212 (h : opc.toNat = 212) :
     straightArmSrc ⟨opc, dstb, srcb, off, imm⟩ = some (armB helpers p pc ⟨opc, dstb, srcb, off, imm⟩) := by
-  obtain rfl : opc = 212 := BitVec.eq_of_toNat_eq h; rfl
+  obtain rfl : opc = 212 := BitVec.eq_of_toNat_eq h
+  have e : armB helpers p pc ⟨212, dstb, srcb, off, imm⟩ = endian ⟨212, dstb, srcb, off, imm⟩ := by rfl
+  rw [e]
+  conv => lhs; whnf
+  refine congrArg some ?_
+  simp only [BitVec.reduceToNat, pure_bind, insnDst_eq, setDst_eq, ne_eq]
+  unfold endian
+  by_cases h16 : imm = 16
+  · subst h16; simp [hostLittle]
+  by_cases h32 : imm = 32
+  · subst h32; simp [hostLittle]
+  by_cases h64 : imm = 64
+  · subst h64; simp [hostLittle]
+  simp only [h16, h32, h64, ↓reduceIte]
+  split
+  · rename_i hh; exact absurd (BitVec.eq_of_toInt_eq (hh.trans (by decide))) h16
+  · rename_i hh; exact absurd (BitVec.eq_of_toInt_eq (hh.trans (by decide))) h32
+  · rename_i hh; exact absurd (BitVec.eq_of_toInt_eq (hh.trans (by decide))) h64
+  · rfl
 theorem sa_219 (h : opc.toNat = 219) :
     straightArmSrc ⟨opc, dstb, srcb, off, imm⟩ = some (armB helpers p pc ⟨opc, dstb, srcb, off, imm⟩) := by
   obtain rfl : opc = 219 := BitVec.eq_of_toNat_eq h; rfl
 theorem sa_220 (h : opc.toNat = 220) :
     straightArmSrc ⟨opc, dstb, srcb, off, imm⟩ = some (armB helpers p pc ⟨opc, dstb, srcb, off, imm⟩) := by
-  obtain rfl : opc = 220 := BitVec.eq_of_toNat_eq h; rfl
+  obtain rfl : opc = 220 := BitVec.eq_of_toNat_eq h
+  have e : armB helpers p pc ⟨220, dstb, srcb, off, imm⟩ = endian ⟨220, dstb, srcb, off, imm⟩ := by rfl
+  rw [e]
+  conv => lhs; whnf
+  refine congrArg some ?_
+  simp only [BitVec.reduceToNat, pure_bind, insnDst_eq, setDst_eq, ne_eq]
+  unfold endian
+  by_cases h16 : imm = 16
+  · subst h16; simp [hostLittle]
+  by_cases h32 : imm = 32
+  · subst h32; simp [hostLittle]
+  by_cases h64 : imm = 64
+  · subst h64; simp [hostLittle]
+  simp only [h16, h32, h64, ↓reduceIte]
+  split
+  · rename_i hh; exact absurd (BitVec.eq_of_toInt_eq (hh.trans (by decide))) h16
+  · rename_i hh; exact absurd (BitVec.eq_of_toInt_eq (hh.trans (by decide))) h32
+  · rename_i hh; exact absurd (BitVec.eq_of_toInt_eq (hh.trans (by decide))) h64
+  · rfl
 end
 
 theorem straightArm_eq (helpers : Nat → Bool) (p : Bytes) (pc : Nat) (i : Insn) (h : i.opc.toNat ∈ straightOpcodes) :
@@ -227,7 +409,7 @@ theorem straightArm_eq (helpers : Nat → Bool) (p : Bytes) (pc : Nat) (i : Insn
   simp only [straightOpcodes, List.mem_cons, List.not_mem_nil, or_false] at h
   rcases h with h | h | h | h | h | h | h | h | h | h | h | h | h | h | h | h | h | h | h | h | h | h | h | h | h | h | h | h | h | h |
     h | h | h | h | h | h | h | h | h | h | h | h | h | h | h | h | h | h | h | h | h | h | h | h | h | h | h | h | h | h |
-    h | h | h | h | h | h
+    h | h | h | h | h | h | h | h | h | h | h | h | h | h
   · exact sa_4 h
   · exact sa_7 h
   · exact sa_12 h
@@ -236,20 +418,28 @@ theorem straightArm_eq (helpers : Nat → Bool) (p : Bytes) (pc : Nat) (i : Insn
   · exact sa_23 h
   · exact sa_28 h
   · exact sa_31 h
+  · exact sa_32 h
   · exact sa_36 h
   · exact sa_39 h
+  · exact sa_40 h
   · exact sa_44 h
   · exact sa_47 h
+  · exact sa_48 h
   · exact sa_52 h
   · exact sa_55 h
+  · exact sa_56 h
   · exact sa_60 h
   · exact sa_63 h
+  · exact sa_64 h
   · exact sa_68 h
   · exact sa_71 h
+  · exact sa_72 h
   · exact sa_76 h
   · exact sa_79 h
+  · exact sa_80 h
   · exact sa_84 h
   · exact sa_87 h
+  · exact sa_88 h
   · exact sa_92 h
   · exact sa_95 h
   · exact sa_97 h
